@@ -450,7 +450,10 @@ TRUSTED_BASE = [
 
 
 def write_evidence(pid, tier, seed, prop, info, stats, samples, wall, nviol):
-    os.makedirs(os.path.join(VERIF, "evidence"), exist_ok=True)
+    # evidence/ describes runs against /repo itself; a run pointed at another tree (BB_REPO, used by the
+    # seeded-change sweeps) writes under scratch/ (git-ignored) so that it can never replace committed evidence
+    evdir = os.path.join(VERIF, "scratch", "evidence_other_tree") if os.environ.get("BB_REPO") else os.path.join(VERIF, "evidence")
+    os.makedirs(evdir, exist_ok=True)
     obligations = [{"theorem": n, "axioms": ax} for n, ax in (info.get("axioms") or {}).items()]
     ev = {
         "property_id": pid, "tier": tier, "seed": seed, "level": "proof",
@@ -477,7 +480,7 @@ def write_evidence(pid, tier, seed, prop, info, stats, samples, wall, nviol):
         "wall_s": wall,
         "violations": nviol,
     }
-    with open(os.path.join(VERIF, "evidence", f"{pid}.json"), "w") as f:
+    with open(os.path.join(evdir, f"{pid}.json"), "w") as f:
         json.dump(ev, f, indent=1, default=str)
 
 
